@@ -18,6 +18,13 @@ pub const STEP_A: u64 = 120;
 pub const STEP_B: u64 = 10;
 
 pub fn check(x: &Execution, solo: &mut u64) -> Vec<(String, String)> {
+    check_named(x, solo, false)
+}
+
+/// `stalled`: programs in which a participant is suspended for longer than the temporary-file age
+/// limit (its own temp file may legitimately be reclaimed, so its operation may fail); only the
+/// non-blocking monitors apply to those.
+pub fn check_named(x: &Execution, solo: &mut u64, stalled: bool) -> Vec<(String, String)> {
     let mut bad = Vec::new();
     // per (thread, op): events and listed entries
     let mut steps: BTreeMap<(i32, u32), (u64, u64, u64)> = BTreeMap::new();
@@ -63,6 +70,9 @@ pub fn check(x: &Execution, solo: &mut u64) -> Vec<(String, String)> {
         bad.push(("livelock".into(), "an operation exceeded the step horizon or made no progress".into()));
     }
     for r in &x.history {
+        if stalled {
+            break;
+        }
         if let (POp::Api(op), Res::Err(k, os, m)) = (&r.op, &r.outcome.res) {
             bad.push(("op-failed".into(), format!("t{} {} failed: {:?}/{:?} {}", r.tid, op.label(), k, os, m)));
         }
@@ -98,6 +108,36 @@ pub fn programs(tier: Tier) -> Vec<(Program, Mode)> {
             v.push((p, m));
         }
     }
+    // a participant suspended for two hours in the middle of a write: whatever happens to its temporary
+    // file meanwhile, it must come back in a bounded number of steps
+    {
+        use crate::ops::{Op, Pop};
+        use crate::props::e1::{api, planted};
+        use crate::world::{Size, Val};
+        let k = e1::key1();
+        let j = e1::key2();
+        for (front, cfgv) in [("plain", e1::plain_cfg(2)), ("stack", e1::stack_cfg(2))] {
+            let pre = vec![planted("x1", Val::new(23, Size::One), true, 7), planted("x2", Val::new(24, Size::One), false, 9)];
+            for (name, op) in [
+                ("ensure", Op::Ensure(k.clone(), Pop::Value(e1::wval(0, 0, Size::One)))),
+                ("replace", Op::Gou(k.clone(), crate::ops::Act::Replace, Pop::Value(e1::wval(0, 0, Size::One)))),
+            ] {
+                v.push((
+                    Program {
+                        name: format!("stall-{}-{}|late-maintainer", front, name),
+                        cfg: cfgv.clone(),
+                        pre: pre.clone(),
+                        threads: e1::own_handles(
+                            vec![vec![api(op.clone())], vec![POp::ClockJump(7200), api(Op::Set(j.clone(), e1::wval(1, 1, Size::One)))]],
+                            true,
+                        ),
+                        create_write_dir: true,
+                    },
+                    Mode::Bounded(2),
+                ));
+            }
+        }
+    }
     v
 }
 
@@ -118,7 +158,8 @@ pub fn run(tier: Tier, shard: Shard, rep: &mut Report) {
     let progs = programs(tier);
     let cap = if tier == Tier::Quick { 300_000 } else { 30_000_000 };
     let mut solo = 0u64;
-    let mut chk = |_pi: usize, x: &Execution| check(x, &mut solo);
+    let stalled: Vec<bool> = progs.iter().map(|p| p.0.name.starts_with("stall-")).collect();
+    let mut chk = |pi: usize, x: &Execution| check_named(x, &mut solo, stalled[pi]);
     e1::explore_all("C06", &progs, shard, rep, &|_| RunOpts { event_budget: 2000, ..Default::default() }, &mut chk, cap);
     rep.count("solo_suffixes_observed", solo);
 }
@@ -127,6 +168,7 @@ pub fn replay(case: &Value, rep: &mut Report) {
     crate::sched::install_hooks();
     let progs: Vec<Program> = programs(Tier::Thorough).into_iter().map(|p| p.0).collect();
     let mut solo = 0;
-    let mut chk = |x: &Execution| check(x, &mut solo);
+    let stalled = case["program"].as_str().unwrap_or("").starts_with("stall-");
+    let mut chk = |x: &Execution| check_named(x, &mut solo, stalled);
     e1::replay_case("C06", &progs, case, rep, &|| RunOpts { event_budget: 2000, ..Default::default() }, &mut chk);
 }
